@@ -540,6 +540,10 @@ func (c *Ctx) defaultElision(info *types.Info) {
 		// the reader evaluated with the entry absent: what it stores is the default, wherever the
 		// constant is written (inline, argument of a helper shared between keys, generic helper)
 		d, evaluated := c.readerDefaultEval(key)
+		if !evaluated {
+			// the field is stored more than once (defaults first, then what the dictionary holds)
+			d, evaluated = c.readerDefaultEvalY6(key)
+		}
 		switch {
 		case evaluated && (len(consts) != 1 || consts[0] == d):
 			defaults[key] = d
